@@ -246,6 +246,9 @@ type tcpModel struct {
 	out     []*Term
 	writes  [][]*Term
 	wvals   []Value // every Write argument as given (Slice or LSlice)
+	peer    *tcpModel // pipe: writes are appended to the peer's input
+	cuts    int     // reads that returned fewer bytes than were available (segment boundaries used)
+	byteWise bool   // every read returns one byte
 	closed  bool
 	segTag  string
 }
@@ -269,6 +272,28 @@ func registerEnv(m *Machine) {
 			m.tcp[&st[0]] = tm
 		}
 		return cell
+	}
+	// vfTCPPair(tag) (*net.TCPConn, *net.TCPConn): two ends of one connection.
+	I["vfTCPPair"] = func(m *Machine, fr *frame, a []Value, _ *ssa.CallCommon) Value {
+		tt := m.P.namedType("net", "TCPConn")
+		mk := func(suffix string) (*Value, *tcpModel) {
+			cell := new(Value)
+			*cell = m.zero(tt)
+			tm := &tcpModel{segTag: m.concStr(a[0], "tag") + suffix}
+			m.tcp[cell] = tm
+			if st, ok := (*cell).(Struct); ok && len(st) > 0 {
+				m.tcp[&st[0]] = tm
+			}
+			return cell, tm
+		}
+		ca, ta := mk(".a")
+		cb, tb := mk(".b")
+		ta.peer, tb.peer = tb, ta
+		return Tuple{ca, cb}
+	}
+	I["vfTCPByteWise"] = func(m *Machine, fr *frame, a []Value, _ *ssa.CallCommon) Value {
+		m.tcp[a[0].(*Value)].byteWise = true
+		return nil
 	}
 	I["vfTCPWritten"] = func(m *Machine, fr *frame, a []Value, _ *ssa.CallCommon) Value {
 		t := m.tcp[a[0].(*Value)]
@@ -304,11 +329,21 @@ func registerEnv(m *Machine) {
 			return Tuple{c.BV(0, 64), m.P.netClosedErr(m)}
 		}
 		rem := len(t.in) - t.pos
+		if len(buf.V) == 0 {
+			return Tuple{c.BV(0, 64), Iface{}} // poll.FD.Read: a zero-length read returns 0, nil
+		}
 		if rem == 0 {
 			if t.eof {
 				return Tuple{c.BV(0, 64), m.P.ioEOF(m)}
 			}
-			m.block(func() bool { return false }, "TCP read (peer silent)")
+			m.block(func() bool { return len(t.in) > t.pos || t.closed || t.eof }, "TCP read (peer silent)")
+			if t.closed {
+				return Tuple{c.BV(0, 64), m.P.netClosedErr(m)}
+			}
+			rem = len(t.in) - t.pos
+			if rem == 0 {
+				return Tuple{c.BV(0, 64), m.P.ioEOF(m)}
+			}
 		}
 		if len(buf.V) == 0 {
 			return Tuple{c.BV(0, 64), Iface{}}
@@ -319,10 +354,19 @@ func registerEnv(m *Machine) {
 		}
 		// segmentation: the kernel may return any 1..maxn bytes
 		n := maxn
-		if m.P.Segmentation && maxn > 1 {
+		switch {
+		case t.byteWise:
+			n = 1
+			m.ndlog = append(m.ndlog, NdRec{Tag: "env:seg:" + t.segTag, Kind: "int", Terms: []*Term{c.BV(1, 64)}})
+		case m.P.Segmentation && maxn > 1 && (m.P.SegCuts <= 0 || t.cuts < m.P.SegCuts):
 			k := m.fresh("env:seg:"+t.segTag, "int", 64)
 			m.pc = append(m.pc, c.Cmp(OSLe, c.BV(1, 64), k), c.Cmp(OSLe, k, c.BV(uint64(maxn), 64)))
 			n = int(m.concretize(k, "segment length"))
+			if n < maxn {
+				t.cuts++
+			}
+		default:
+			m.ndlog = append(m.ndlog, NdRec{Tag: "env:seg:" + t.segTag, Kind: "int", Terms: []*Term{c.BV(uint64(maxn), 64)}})
 		}
 		for i := 0; i < n; i++ {
 			m.store(&buf.V[i], t.in[t.pos+i])
@@ -345,6 +389,9 @@ func registerEnv(m *Machine) {
 			return Tuple{ls.Len, Iface{}}
 		}
 		bs := sliceTerms(a[1])
+		if t.peer != nil {
+			t.peer.in = append(append([]*Term{}, t.peer.in...), bs...)
+		}
 		t.out = append(t.out, bs...)
 		t.writes = append(t.writes, append([]*Term{}, bs...))
 		t.wvals = append(t.wvals, termSlice(bs))
@@ -358,6 +405,9 @@ func registerEnv(m *Machine) {
 		p, _ := a[0].(*Value)
 		if t := m.tcp[p]; t != nil {
 			t.closed = true
+			if t.peer != nil {
+				t.peer.eof = true
+			}
 		}
 		return Iface{}
 	}
